@@ -47,6 +47,9 @@ for pdir in sorted((ROOT / "seeded").glob("C*")):
         patch = vdir / "patch_head.diff" if (vdir / "patch_head.diff").exists() else vdir / "patch.diff"
         if only and pdir.name not in only and f"{pdir.name}{vdir.name}" not in only:
             continue
+        meta = json.loads((vdir / "meta.json").read_text()) if (vdir / "meta.json").exists() else {}
+        if meta.get("status_on_head", "").startswith("neutralised"):
+            continue  # a later fix: commit removed the mechanism this change relied on (its demo passes on HEAD)
         items.append((pdir.name, vdir.name, patch))
 with ThreadPoolExecutor(jobs) as ex:
     results = list(ex.map(one, items))
